@@ -90,18 +90,20 @@ func (c *Ctx) Quick() bool { return c.Tier != "thorough" }
 
 // Worker accumulates results of one worker goroutine (merged at the end).
 type Worker struct {
-	id        int
-	counters  map[string]int64
-	distinct  map[uint64]struct{}
-	samples   []any
-	viol      []Violation
-	violTotal int64
-	violSeen  map[string]bool
-	announce  *bufio.Writer // only in -only mode
-	cur       atomic.Int64
-	curStart  atomic.Int64
-	notes     map[string]any
-	local     map[string]any
+	id         int
+	counters   map[string]int64
+	distinct   map[uint64]struct{}
+	samples    []any
+	viol       []Violation
+	violTotal  int64
+	violSeen   map[string]bool
+	announce   *bufio.Writer // only in -only mode
+	cur        atomic.Int64
+	curStart   atomic.Int64
+	notes      map[string]any
+	local      map[string]any
+	slowest    time.Duration
+	slowestJob int
 }
 
 func newWorker(id int) *Worker {
@@ -288,6 +290,7 @@ func childMain(c *Ctx) {
 					return
 				}
 				emit(fmt.Sprintf("S %d %d\n", w.id, i))
+				t0 := time.Now()
 				func() {
 					defer func() {
 						if r := recover(); r != nil {
@@ -297,6 +300,9 @@ func childMain(c *Ctx) {
 					}()
 					plan.Job(w, i)
 				}()
+				if d := time.Since(t0); d > w.slowest {
+					w.slowest, w.slowestJob = d, i
+				}
 				done.Add(1)
 				emit(fmt.Sprintf("D %d %d\n", w.id, i))
 			}
@@ -305,6 +311,9 @@ func childMain(c *Ctx) {
 	wg.Wait()
 	m := newWorker(-1)
 	for _, w := range workers {
+		if w.slowest > m.slowest {
+			m.slowest, m.slowestJob = w.slowest, w.slowestJob
+		}
 		for k, v := range w.counters {
 			m.counters[k] += v
 		}
@@ -324,6 +333,9 @@ func childMain(c *Ctx) {
 	}
 	if plan.Finish != nil {
 		plan.Finish(c, m)
+	}
+	if m.slowest > 0 {
+		m.notes["slowest_job"] = map[string]any{"seconds": m.slowest.Seconds(), "job": plan.Describe(m.slowestJob)}
 	}
 	sort.Slice(m.viol, func(i, j int) bool {
 		if len(m.viol[i].Key) != len(m.viol[j].Key) {
@@ -821,4 +833,40 @@ func (w *Worker) Local(key string, mk func() any) any {
 		w.local[key] = v
 	}
 	return v
+}
+
+// WorkerDump is a serialisable copy of a worker's results (used by engines that run a job in a
+// subprocess of their own).
+type WorkerDump struct {
+	Counters map[string]int64 `json:"counters"`
+	Distinct []uint64         `json:"distinct"`
+	Samples  []any            `json:"samples"`
+	Viol     []Violation      `json:"viol"`
+	Notes    map[string]any   `json:"notes"`
+}
+
+func (w *Worker) Dump() WorkerDump {
+	d := WorkerDump{Counters: w.counters, Samples: w.samples, Viol: w.viol, Notes: w.notes}
+	for h := range w.distinct {
+		d.Distinct = append(d.Distinct, h)
+	}
+	return d
+}
+
+func (w *Worker) Merge(d WorkerDump) {
+	for k, v := range d.Counters {
+		w.counters[k] += v
+	}
+	for _, h := range d.Distinct {
+		w.distinct[h] = struct{}{}
+	}
+	for _, s := range d.Samples {
+		w.Sample(s)
+	}
+	for _, v := range d.Viol {
+		w.Violate(v)
+	}
+	for k, v := range d.Notes {
+		w.notes[k] = v
+	}
 }
